@@ -487,6 +487,7 @@ func runC04(r *h.Run) {
 		r.Phase(ph.name, ph.gen, func(w *h.Worker, x interface{}) {
 			w.Scratch["thorough"] = thorough
 			u := x.(*inputSpec)
+			u.sharedOnlyC = true
 			w.Begin(func() string { return fmt.Sprintf("C04 unit %s keys=%d", u.sc.Name, len(u.sc.Keys)) })
 			u.cases(func(c *h.Case) bool {
 				if v := evalTrieCase(w, c, u, oracleC04, true); v != nil {
